@@ -1,6 +1,7 @@
 import Driver.PathFn
 import Driver.CoreFn
 import Driver.MemfsFn
+import Driver.MacroFn
 import Rivia.Model.Conc
 
 open Driver Rivia
@@ -34,6 +35,10 @@ def handle (sess : Sess) (line : String) : String × Sess :=
       | some r => (r, sess)
       | none =>
         if sess.dead then ("skipped", sess)
+        else if fn = "assert" then
+          match macroOp (envLookup sess.env) args sess.st with
+          | some (r, st') => (r ++ " ## " ++ dumpState st' ++ "\t-\t-\t" ++ (match Rivia.Spec.invViolation st' with | none => "inv-ok" | some c => "inv-broken:" ++ c), { sess with st := st' })
+          | none => ("bad-op", sess)
         else match memfsOp (envLookup sess.env) fn args sess.st with
           | some (op, r, st') =>
             let dead := r = "hang" ∨ r = "panic"
